@@ -111,7 +111,18 @@ def scenario(i, group, git, setvars, ident, root, issuances):
     scratch = os.path.join(root, "w%03d" % i)
     settings = {"group": group}
     cenv = {}
-    port = 20000 + (os.getpid() % 2000) * 10 + i % 10 + (i // 10) * 37 % 9000
+    # below the kernel's ephemeral range (32768..60999), so that no client socket of another process can be sitting on it,
+    # spread by process id so that two copies of this check do not meet, and tested free
+    port = 20000 + (os.getpid() * 131 + i * 37) % 12000
+    for _ in range(50):
+        probe = socket.socket()
+        try:
+            probe.bind(("127.0.0.1", port))
+            probe.close()
+            break
+        except OSError:
+            probe.close()
+            port = 20000 + (port - 20000 + 101) % 12000
     if setvars:
         settings.update({"HTTP_ROOT": os.path.join(scratch, "www"), "TACD_PID_ROOT": os.path.join(scratch, "run"),
                          "TACD_SOCK_ROOT": os.path.join(scratch, "sock"), "TACD_HOST": "127.0.0.1", "TACD_PORT": str(port)})   # every variable its own value
